@@ -232,6 +232,35 @@ func (r *run) open() bool {
 	return true
 }
 
+// retInfo is the cheap scalar state logged at the return of an API call for spec/WalImplTrace.tla: the call's result
+// class and the log bounds the WAL reports right now (in-memory reads, no I/O).
+func (r *run) retInfo(op string, ev map[string]any) string {
+	info := map[string]any{"res": "", "first": -1, "last": -1}
+	if op == "open" {
+		if r.w != nil && !r.dead {
+			info["res"] = "ok"
+		} else {
+			info["res"] = "err"
+		}
+	} else if ev != nil {
+		if s, ok := ev["res"].(string); ok {
+			info["res"] = s
+		}
+	}
+	if r.w != nil && !r.dead && !r.rec.Frozen() {
+		func() {
+			defer func() { recover() }()
+			f, e1 := r.w.FirstIndex()
+			l, e2 := r.w.LastIndex()
+			if e1 == nil && e2 == nil {
+				info["first"], info["last"] = f, l
+			}
+		}()
+	}
+	b, _ := json.Marshal(info)
+	return string(b)
+}
+
 func (r *run) guard(where string) {
 	if p := recover(); p != nil {
 		r.out.Panics++
@@ -544,7 +573,7 @@ func (r *run) doStep(s Step) {
 	}
 	si.lastMut = r.lastMutating(si.inv)
 	si.ret = r.rec.Len()
-	r.rec.Mark("ret", "", "")
+	r.rec.Mark("ret", r.retInfo(s.Op, si.ev), "")
 	si.completed = true
 	r.steps = append(r.steps, si)
 	if s.Op == "store" || s.Op == "delete" {
